@@ -126,7 +126,7 @@ class Join(BinaryOperation):
                     f"for right-hand side of join between {lhs!r} and {rhs!r}."
                 )
             operation = self
-        if self.predicate.as_trivial() is True:
+        if self.predicate.as_trivial() is True and lhs.engine == rhs.engine:
             if lhs.is_join_identity:
                 return IgnoreOne(True)
             if rhs.is_join_identity:
@@ -135,7 +135,7 @@ class Join(BinaryOperation):
 
     def _finish_apply(self, lhs: Relation, rhs: Relation) -> Relation:
         # Docstring inherited.
-        if self.predicate.as_trivial() is True:
+        if self.predicate.as_trivial() is True and lhs.engine == rhs.engine:
             if lhs.is_join_identity:
                 return rhs
             if rhs.is_join_identity:
